@@ -482,4 +482,27 @@ def unit3b(prog, R):
         R.add('UNIT-3b', comp, 'stage:%s' % p, ok, site(comp, comp.span['lo']),
               'stopped in %s: valid %s; compaction shifts %s (record start := 0: %s); resumed search recomputes %s' % (
                   p, sorted(valid[p]), sorted(shifted), start_ok, sorted(recomputed)))
+    # STAGE-1: when the resumed search is suspended again, the part it names is the one in which it
+    # stopped: the offsets known at that point (valid at entry + assigned on the way) are exactly
+    # the ones a fresh search knows when it stops in that part
+    R.rule('STAGE-1', 'FASTQ: when the resumed line search is suspended again, the part it records (and reports in UnexpectedEnd) matches the lines found so far')
+    ns = 0
+    for p0 in rp:
+        if p0 not in valid:
+            continue
+        hp_in = h0.copy()
+        hp_in['inc'] = 'Some'
+        hp_in['incv'] = p0
+        for (rv, hp) in it.run_fn(resum, hp_in.copy(), [('rself',), E('fastq::RecordPos', p0)]):
+            if not (isinstance(rv, tuple) and rv[0] == 'e' and rv[2] == 'Ok' and rv[3] and isinstance(rv[3][0], tuple) and rv[3][0][0] == 'e' and rv[3][0][2] == 'Some'):
+                continue
+            q = hp.get('incv')
+            ret_q = rv[3][0][3][0][2] if rv[3][0][3] and isinstance(rv[3][0][3][0], tuple) and rv[3][0][3][0][0] == 'e' else '?'
+            known = set(valid[p0]) | set(f for f, k in hp.get('w', ()) if f in LINES and k == 'set')
+            ok = q in valid and known == valid[q] and (ret_q in ('?', q))
+            ns += 1
+            R.add('STAGE-1', resum, 'entered:%s->suspended:%s' % (p0, q), ok, site(resum, resum.span['lo']),
+                  'entered in %s, suspended again recording %s (returned %s) with offsets %s known; a fresh search stopping in %s knows %s' % (
+                      p0, q, ret_q, sorted(known), q, sorted(valid.get(q, ['?']))))
+    R.floor('STAGE-1', 4)
     R.floor('UNIT-3b', 4)
